@@ -50,6 +50,7 @@ def required(tier):
         "trees_checked": 3000,
         "errors.multiple": 300,
         "grammars.comment_layout": 50,
+        "injected_leaves": 300,
     }
 
 
@@ -288,9 +289,8 @@ def check(ctx, lmon, rmon, g, pg, pkeys, parser, plain, kind, sname, det, case, 
                 if a != b:
                     ctx.violation("result-differs-from-no-recovery", case, "forest with error_recovery differs from the forest without")
                     return
-    if sname == "inject":
-        return
-    # --- default / skip strategy: trees are derivations over input tokens -----
+    injected_ok = sname == "inject"
+    # --- trees are derivations over input tokens (injected tokens are zero-length leaves) -----
     if kind == "LR":
         trees = [val]
     else:
@@ -309,6 +309,10 @@ def check(ctx, lmon, rmon, g, pg, pkeys, parser, plain, kind, sname, det, case, 
         pos = 0
         for l in leaves:
             s, en = l.start_position, l.end_position
+            if injected_ok and type(s) is int and s == en and pos <= s <= n:
+                # a token injected by the strategy: consumes nothing
+                ctx.count("injected_leaves")
+                continue
             if not (type(s) is int and type(en) is int and pos <= s < en <= n and l.value == inp[s:en]):
                 ctx.violation("leaf-is-not-an-input-token", case, "leaf %s[%s->%s] value %r (previous leaf ended at %d)" % (l.symbol.name, s, en, l.value, pos))
                 return
